@@ -21,3 +21,10 @@ def to_os_path(path, root=''):
     import os
     parts = [p for p in path.strip('/').split('/') if p]
     return os.path.join(root, *parts)
+
+
+async def ensure_async(obj):
+    import inspect
+    if inspect.isawaitable(obj):
+        return await obj
+    return obj
